@@ -33,6 +33,18 @@ def run_engine(ctx, prefixes, n_quick=250, n_thorough=4000, mode="engine", extra
     exe = ctx.build_harness("server", only=ENGINE_FILES)
     if not exe:
         return
+    # regression corpus first: op lines that exposed past failures (seeded changes), replayed on the real engine and the model
+    corpus = os.path.join(vlib.VERIF, "corpus", "engine.ops")
+    if os.path.exists(corpus) and mode == "engine":
+        outdir = ctx.run_harness(exe, "engine-replay", 1, extra={"VERIF_REPLAY": corpus})
+        if outdir:
+            dis = ctx.diff(outdir, "engine-replay", classify=classify_engine)
+            read_monitor(ctx, outdir, "engine-replay", prefixes)
+            ctx.cov["corpus_lines_replayed"] = sum(1 for l in open(corpus) if l.startswith("engine "))
+            if dis:
+                d = dis[0]
+                ctx.broken.append({"kind": "correspondence", "name": "M-ENGINE vs real LockDB (corpus replay)",
+                                   "detail": f"{len(dis)} corpus lines disagree; first: {first_divergence(d[2], d[3])} ops={d[1][:1500]}"})
     n = n_quick if ctx.tier == "quick" else n_thorough
     seeds = [ctx.seed] if ctx.tier == "quick" else [ctx.seed + i for i in range(4)]
     for sd in seeds:
